@@ -382,6 +382,10 @@ class DefaultPredictionStrategy(object):
         if settings.skip_posterior_variances.on():
             return ZeroLinearOperator(*test_test_covar.size())
 
+        nan_policy = settings.observation_nan_policy.value()
+        if nan_policy != "ignore":
+            return self._exact_predictive_covar_missing_obs(test_test_covar, test_train_covar, nan_policy)
+
         if settings.fast_pred_var.off():
             dist = self.train_prior_dist.__class__(
                 torch.zeros_like(self.train_prior_dist.mean), self.train_prior_dist.lazy_covariance_matrix
@@ -419,6 +423,44 @@ class DefaultPredictionStrategy(object):
             return test_test_covar + MatmulLinearOperator(
                 covar_inv_quad_form_root, covar_inv_quad_form_root.transpose(-1, -2).mul(-1)
             )
+
+    def _exact_predictive_covar_missing_obs(
+        self, test_test_covar: LinearOperator, test_train_covar: LinearOperator, nan_policy: str
+    ) -> LinearOperator:
+        """
+        Computes the posterior predictive covariance when `observation_nan_policy` is 'mask' or 'fill'.
+
+        The training points whose targets are missing must not be conditioned on. As in :meth:`_mean_cache` and
+        :meth:`exact_predictive_mean`, their rows and columns are removed from the train-train covariance ('mask')
+        or decoupled from the observed ones ('fill'), and the matching columns of the test-train covariance are
+        removed / zeroed. The (exact) solve is used regardless of `fast_pred_var`, since the cached root
+        decomposition belongs to the full train-train covariance.
+        """
+        dist = self.train_prior_dist.__class__(
+            torch.zeros_like(self.train_prior_dist.mean), self.train_prior_dist.lazy_covariance_matrix
+        )
+        train_train_covar = self.likelihood(dist, self.train_inputs).lazy_covariance_matrix.evaluate_kernel()
+        if settings.detach_test_caches.on():
+            train_train_covar = train_train_covar.detach()
+        test_train_covar = to_dense(test_train_covar)
+
+        if nan_policy == "mask":
+            observed = settings.observation_nan_policy._get_observed(
+                self.train_labels, torch.Size((self.train_labels.shape[-1],))
+            ).reshape(-1)
+            train_train_covar = MaskedLinearOperator(train_train_covar, observed, observed)
+            test_train_covar = test_train_covar[..., observed]
+        else:  # 'fill'
+            observed = (~torch.isnan(self.train_labels)).to(test_train_covar.dtype)
+            test_train_covar = test_train_covar * observed[..., None, :]
+            kernel_mask = observed[..., None] * observed[..., None, :]
+            torch.diagonal(kernel_mask, dim1=-2, dim2=-1)[...] = 1
+            train_train_covar = train_train_covar * kernel_mask
+
+        covar_correction_rhs = train_train_covar.solve(test_train_covar.transpose(-1, -2))
+        return to_linear_operator(test_test_covar) + MatmulLinearOperator(
+            test_train_covar, covar_correction_rhs.mul(-1)
+        )
 
 
 class InterpolatedPredictionStrategy(DefaultPredictionStrategy):
